@@ -140,3 +140,18 @@ func ParseCoin(v []byte) *big.Int {
 	}
 	return b
 }
+
+// KeeperNonce reads the EVM account record of an address.
+func KeeperNonce(s hist.State, addr keys.Address) (uint64, bool) {
+	v, ok := s["keeper_"+string(addr)]
+	if !ok {
+		return 0, false
+	}
+	var rec struct {
+		Nonce uint64 `json:"sequence"`
+	}
+	if err := json.Unmarshal(v, &rec); err != nil {
+		return 0, false
+	}
+	return rec.Nonce, true
+}
